@@ -265,11 +265,14 @@ def run(ctx):
     ctx.counters["model_terminal_runs"] = len(res.cases)
 
     # ---- TLC: the problem pool
-    pool = ctx.tlc("EqSolve_MC", "EqSolve_MC_pool_%s.cfg" % ("q" if ctx.quick else "t"),
-                   require_actions=["GenPickHomog", "GenPickSalt", "ShiftK", "GenPickInit"] if ctx.quick else (),
-                   require_cases=500, timeout=900)
+    pool_cases = []
+    for tag in (("q",) if ctx.quick else ("q", "t")):
+        pool = ctx.tlc("EqSolve_MC", "EqSolve_MC_pool_%s.cfg" % tag,
+                       require_actions=["GenPickHomog", "GenPickSalt", "ShiftK", "GenPickInit"] if tag == "q" else (),
+                       require_cases=500, timeout=900)
+        pool_cases += pool.cases
     seen, cases = set(), []
-    for c in pool.cases:
+    for c in pool_cases:
         h = core.stable_hash(c["in"])
         if h not in seen:
             seen.add(h)
